@@ -65,7 +65,9 @@ impl Reservoir {
         if idx < self.values.len() {
             self.values[idx].store(value.to_bits(), Relaxed);
         } else {
-            let maybe_idx = fastrand(idx);
+            // Algorithm R: the item at (zero-based) position `idx` replaces a uniformly chosen slot out of
+            // `idx + 1` candidates, so it is retained with probability `capacity / (idx + 1)`.
+            let maybe_idx = fastrand(idx + 1);
             if maybe_idx < self.values.len() {
                 self.values[maybe_idx].store(value.to_bits(), Relaxed);
             }
